@@ -21,14 +21,15 @@ inductive Trans (s : St) (t : Tid) : St → Prop
   | iRunlock (hd : s.dead = false) (ht : t < s.nthreads) (hn : (s.ctl t).nest ≠ 0) (hpc : s.pc t = .idle) :
       Trans s t { s with pc := upd s.pc t .ruLoad, clock := s.clock + 1 }
   | iSync (hd : s.dead = false) (ht : t < s.nthreads) (hpc : s.pc t = .idle) :
-      Trans s t { s with pc := upd s.pc t (.acq []), clock := s.clock + 1 }
+      Trans s t { s with pc := upd s.pc t (if s.buffered then .syncLd [] else .acq []), clock := s.clock + 1 }
   | iRetire (p : Obj) (hd : s.dead = false) (ht : t < s.nthreads) (hr : s.retiredAt p = none) (hpc : s.pc t = .idle) :
       Trans s t { s with pc := upd s.pc t (if s.buffered then .retEpoch p else .acq [p]),
                          retiredAt := upd s.retiredAt p (some s.clock),
                          place := upd s.place p (.thr t),
                          clock := s.clock + 1 }
   | iDestruct (hd : s.dead = false) (ht : t < s.nthreads) (hq : allQuiet s = true) (hpc : s.pc t = .idle) :
-      Trans s t { s with pc := upd s.pc t .dPop, dead := true, clock := s.clock + 1 }
+      Trans s t { s with pc := upd s.pc t (if s.buffered then .dPop else .done), dead := true,
+                         destroyed := !s.buffered, clock := s.clock + 1 }
   | rlLoad (hpc : s.pc t = .rlLoad) :
       Trans s t { s with pc := upd s.pc t (if (s.ctl t).nest = 0 then .rlGctl else .rlNest (s.ctl t)), clock := s.clock + 1 }
   | rlGctl (hpc : s.pc t = .rlGctl) :
@@ -50,9 +51,11 @@ inductive Trans (s : St) (t : Tid) : St → Prop
       Trans s t { s with buf := s.buf ++ [(p, tag)], place := upd s.place p .buf,
                          pc := upd s.pc t (.sizeLd own), clock := s.clock + 1 }
   | pushFail (p : Obj) (tag : Nat) (own : List Obj) (hlen : ¬ s.buf.length < s.bufCap) (hpc : s.pc t = .push p tag own) :
-      Trans s t { s with pc := upd s.pc t (.acq (p :: own)), clock := s.clock + 1 }
+      Trans s t { s with pc := upd s.pc t (.syncLd (p :: own)), clock := s.clock + 1 }
   | sizeLd (own : List Obj) (hpc : s.pc t = .sizeLd own) :
-      Trans s t { s with pc := upd s.pc t (if s.buf.length ≥ s.cap then .acq own else finPC own), clock := s.clock + 1 }
+      Trans s t { s with pc := upd s.pc t (if s.buf.length ≥ s.cap then .syncLd own else finPC own), clock := s.clock + 1 }
+  | syncLd (own : List Obj) (hpc : s.pc t = .syncLd own) :
+      Trans s t { s with pc := upd s.pc t (.acq own), clock := s.clock + 1 }
   | acqOk (own : List Obj) (hl : s.locked = none) (hpc : s.pc t = .acq own) :
       Trans s t { s with locked := some t, acqClock := s.clock, mustWait := s.secStart,
                          pc := upd s.pc t (if s.buffered then .fadd own else .flip ⟨own, 0⟩ false),
@@ -66,7 +69,9 @@ inductive Trans (s : St) (t : Tid) : St → Prop
       Trans s t { s with gctl := !s.gctl, refClock := if r then s.refClock else s.clock,
                          pc := upd s.pc t (afterScan s.nthreads w r 0), clock := s.clock + 1 }
   | waitLd (w : W) (r : Bool) (i : Nat) (hpc : s.pc t = .waitLd w r i) :
-      Trans s t { s with pc := upd s.pc t (.waitG w r i (s.ctl i)), clock := s.clock + 1 }
+      Trans s t { s with pc := upd s.pc t (if (s.ctl i).nest = 0 then afterScan s.nthreads w r (i + 1)
+                                           else .waitG w r i (s.ctl i)),
+                         clock := s.clock + 1 }
   | waitG (w : W) (r : Bool) (i : Nat) (c : Ctl) (hpc : s.pc t = .waitG w r i c) :
       Trans s t { s with pc := upd s.pc t (if c.nest ≠ 0 ∧ c.phase ≠ s.gctl then .waitLd w r i
                                            else afterScan s.nthreads w r (i + 1)),
@@ -132,28 +137,29 @@ theorem trans_of_step {s : St} {t : Tid} {s' : St} {e : Ev} (h : step s t = some
     · simp at h; obtain ⟨rfl, -⟩ := h; exact .pushOk p tag own (by assumption) hpc
     · simp at h; obtain ⟨rfl, -⟩ := h; exact .pushFail p tag own (by assumption) hpc
   case h_9 own hpc => simp at h; obtain ⟨rfl, -⟩ := h; exact .sizeLd own hpc
-  case h_10 own hpc =>
+  case h_10 own hpc => simp at h; obtain ⟨rfl, -⟩ := h; exact .syncLd own hpc
+  case h_11 own hpc =>
     split at h
     · simp at h; obtain ⟨rfl, -⟩ := h; exact .acqOk own (by assumption) hpc
     · simp at h; obtain ⟨rfl, -⟩ := h; exact .acqFail own _ (by assumption) hpc
-  case h_11 own hpc => simp at h; obtain ⟨rfl, -⟩ := h; exact .fadd own hpc
-  case h_12 w r hpc => simp at h; obtain ⟨rfl, -⟩ := h; exact .flip w r hpc
-  case h_13 w r i hpc => simp at h; obtain ⟨rfl, -⟩ := h; exact .waitLd w r i hpc
-  case h_14 w r i c hpc => simp at h; obtain ⟨rfl, -⟩ := h; exact .waitG w r i c hpc
-  case h_15 w hpc => simp at h; obtain ⟨rfl, -⟩ := h; exact .release w hpc
-  case h_16 w hpc =>
+  case h_12 own hpc => simp at h; obtain ⟨rfl, -⟩ := h; exact .fadd own hpc
+  case h_13 w r hpc => simp at h; obtain ⟨rfl, -⟩ := h; exact .flip w r hpc
+  case h_14 w r i hpc => simp at h; obtain ⟨rfl, -⟩ := h; exact .waitLd w r i hpc
+  case h_15 w r i c hpc => simp at h; obtain ⟨rfl, -⟩ := h; exact .waitG w r i c hpc
+  case h_16 w hpc => simp at h; obtain ⟨rfl, -⟩ := h; exact .release w hpc
+  case h_17 w hpc =>
     split at h
     · simp at h; obtain ⟨rfl, -⟩ := h; exact .clrPopEmpty w (by assumption) hpc
     · simp at h; obtain ⟨rfl, -⟩ := h; exact .clrPop w _ _ _ (by assumption) hpc
-  case h_17 w q hpc => simp at h; obtain ⟨rfl, -⟩ := h; exact .clrDisp w q hpc
-  case h_18 p rest hpc => simp at h; obtain ⟨rfl, -⟩ := h; exact .disp p rest hpc
-  case h_19 hpc =>
+  case h_18 w q hpc => simp at h; obtain ⟨rfl, -⟩ := h; exact .clrDisp w q hpc
+  case h_19 p rest hpc => simp at h; obtain ⟨rfl, -⟩ := h; exact .disp p rest hpc
+  case h_20 hpc =>
     split at h
     · simp at h; obtain ⟨rfl, -⟩ := h; exact .dPopEmpty (by assumption) hpc
     · simp at h; obtain ⟨rfl, -⟩ := h; exact .dPop _ _ _ (by assumption) hpc
-  case h_20 q hpc => simp at h; obtain ⟨rfl, -⟩ := h; exact .dDisp q hpc
-  case h_21 => simp at h
+  case h_21 q hpc => simp at h; obtain ⟨rfl, -⟩ := h; exact .dDisp q hpc
   case h_22 => simp at h
+  case h_23 => simp at h
 
 theorem trans_of_result {s : St} {t : Tid} {s' : St} {r : GRet} (h : result s t = some (s', r)) : Trans s t s' := by
   unfold result at h
@@ -212,37 +218,40 @@ structure InvA (s : St) : Prop where
   a10 : s.dead = true → ∀ t, s.secStart t = none ∧ (s.pc t = .idle ∨ s.pc t = .done ∨ s.pc t = .dPop ∨ ∃ q, s.pc t = .dDisp q)
   a11 : ∀ t, (s.pc t = .dPop ∨ ∃ q, s.pc t = .dDisp q) → s.dead = true
   a12 : s.destroyed = true → s.buf = [] ∧ s.dead = true
+  a13 : s.buffered = false → s.buf = [] ∧ ∀ t, (∀ p, s.pc t ≠ .retEpoch p) ∧ ∀ p tag own, s.pc t ≠ .push p tag own
 
 theorem invA_init (b n c bc) : InvA (init b n c bc) := by
   constructor <;> simp [init]
 
 theorem invA_step {s : St} {t : Tid} {s' : St} (h : InvA s) (tr : Trans s t s') : InvA s' := by
-  obtain ⟨a1, a2, a3, a4, a5, a6, a7, a8, a9, a10, a11, a12⟩ := h
+  obtain ⟨a1, a2, a3, a4, a5, a6, a7, a8, a9, a10, a11, a12, a13⟩ := h
   have hq : allQuiet s = true → ∀ u, u < s.nthreads → s.pc u = .idle ∧ (s.ctl u).nest = 0 := allQuiet_spec
-  refine ⟨?_, ?_, ?_, ?_, ?_, ?_, ?_, ?_, ?_, ?_, ?_, ?_⟩
-  · clear a2 a5 a8 a9 a10 a11 a12 hq
+  refine ⟨?_, ?_, ?_, ?_, ?_, ?_, ?_, ?_, ?_, ?_, ?_, ?_, ?_⟩
+  · clear a2 a5 a8 a9 a10 a11 a12 hq a13
     cases tr <;> dsimp only <;> first | assumption | (intros; grind [upd])
-  · clear a1 a3 a4 a5 a6 a7 a8 a9 a10 a11 a12 hq
+  · clear a1 a3 a4 a5 a6 a7 a8 a9 a10 a11 a12 hq a13
     cases tr <;> dsimp only <;> first | assumption | (intros; grind [upd])
-  · clear a1 a2 a4 a5 a6 a7 a8 a9 a10 a11 a12 hq
+  · clear a1 a2 a4 a5 a6 a7 a8 a9 a10 a11 a12 hq a13
     cases tr <;> dsimp only <;> first | assumption | (intros; grind [upd, afterScan])
-  · clear a1 a2 a3 a6 a7 a8 a9 a10 a11 a12 hq
+  · clear a1 a2 a3 a6 a7 a8 a9 a10 a11 a12 hq a13
     cases tr <;> dsimp only <;> first | assumption | (intros; grind [upd, afterScan])
-  · clear a1 a2 a3 a4 a6 a7 a8 a9 a10 a11 a12 hq
+  · clear a1 a2 a3 a4 a6 a7 a8 a9 a10 a11 a12 hq a13
     cases tr <;> dsimp only <;> first | assumption | (intros; grind [upd, afterScan])
-  · clear a1 a2 a3 a4 a5 a7 a8 a9 a10 a11 a12 hq
+  · clear a1 a2 a3 a4 a5 a7 a8 a9 a10 a11 a12 hq a13
     cases tr <;> dsimp only <;> first | assumption | (intros; grind [upd, afterScan])
-  · clear a1 a2 a3 a4 a5 a8 a9 a10 a11 a12 hq
+  · clear a1 a2 a3 a4 a5 a8 a9 a10 a11 a12 hq a13
     cases tr <;> dsimp only <;> first | assumption | (intros; grind [upd, afterScan])
-  · clear a1 a2 a3 a4 a5 a6 a7 a9 a10 a11 a12 hq
+  · clear a1 a2 a3 a4 a5 a6 a7 a9 a10 a11 a12 hq a13
     cases tr <;> dsimp only <;> first | assumption | (intros; grind [upd, afterScan])
-  · clear a1 a2 a3 a4 a5 a6 a7 a8 a10 a11 a12 hq
+  · clear a1 a2 a3 a4 a5 a6 a7 a8 a10 a11 a12 hq a13
     cases tr <;> dsimp only <;> first | assumption | (intros; grind [upd])
-  · clear a2 a3 a4 a5 a6 a9 a12
+  · clear a2 a3 a4 a5 a6 a9 a12 a13
     cases tr <;> dsimp only <;> first | assumption | (intros; grind [upd, afterScan])
-  · clear a1 a2 a3 a4 a5 a6 a7 a8 a9 a12 hq
+  · clear a1 a2 a3 a4 a5 a6 a7 a8 a9 a12 hq a13
     cases tr <;> dsimp only <;> first | assumption | (intros; grind [upd, afterScan])
   · clear a1 a2 a3 a4 a5 a6 a7 a8 a9 hq
+    cases tr <;> dsimp only <;> first | assumption | (intros; grind [upd, afterScan])
+  · clear a1 a2 a3 a4 a5 a6 a7 a8 a9 a10 a11 a12 hq
     cases tr <;> dsimp only <;> first | assumption | (intros; grind [upd, afterScan])
 
 /-! ### Mutual exclusion of the writer mutex; the epoch only grows -/
@@ -427,8 +436,8 @@ theorem invG_step {s : St} {t : Tid} {s' : St} (hA : InvA s) (hM : InvM s) (h : 
     case waitLd w r i hpc =>
       rw [hpc] at hme hbt; simp only [holding, true_iff] at hme
       refine invG_body_holder (t := t) (others_not_holding hM (Or.inl hme)) (fun t' h => by simp [upd, h]) ?_
-      simp only [upd_same]
-      cases r <;> simp only [GBody, OldSec] at hbt ⊢ <;> grind
+      simp only [upd_same, afterScan]
+      cases r <;> simp only [GBody] at hbt <;> (repeat' split) <;> simp only [GBody, OldSec] at hbt ⊢ <;> grind
     case waitG w r i c hpc =>
       rw [hpc] at hme hbt; simp only [holding, true_iff] at hme
       refine invG_body_holder (t := t) (others_not_holding hM (Or.inl hme)) (fun t' h => by simp [upd, h]) ?_
@@ -659,7 +668,11 @@ theorem invQ_step {s : St} {t : Tid} {s' : St} (hA : InvA s) (hM : InvM s) (hP :
         (fun hb => hwe w rfl hb)
       (repeat' split at hpc') <;> subst hpc' <;> first | exact hS | simp at *
     · (repeat' split at hpc') <;> subst hpc' <;> first | exact hold | simp at *
-  case waitLd w r i hpc => rw [hpc] at hold; simp only [upd_same] at hpc'; subst hpc'; exact hold
+  case waitLd w r i hpc =>
+    rw [hpc] at hold; simp only [upd_same, afterScan] at hpc'
+    (repeat' split at hpc') <;> subst hpc' <;> first | exact hold | trivial
+  case iSync hd ht hpc => simp only [upd_same] at hpc'; split at hpc' <;> subst hpc' <;> trivial
+  case iDestruct hd ht hq hpc => simp only [upd_same] at hpc'; split at hpc' <;> subst hpc' <;> trivial
   case waitG w r i c hpc =>
     rw [hpc] at hold; simp only [upd_same, afterScan] at hpc'
     (repeat' split at hpc') <;> subst hpc' <;> first | exact hold | trivial
@@ -796,7 +809,8 @@ theorem invT_step {s : St} {t : Tid} {s' : St} (hA : InvA s) (hM : InvM s) (hP :
   case waitLd w r i hpc =>
     rw [hpc] at hcur hw
     have hS := tagBefore_frame F rfl w (fun hb' => hw _ rfl hb') hcur
-    simp only [upd_same] at hpc'; subst hpc'; exact hS
+    simp only [upd_same, afterScan] at hpc'
+    (repeat' split at hpc') <;> subst hpc' <;> exact hS
   case waitG w r i c hpc =>
     rw [hpc] at hcur hw
     have hS := tagBefore_frame F rfl w (fun hb' => hw _ rfl hb') hcur
